@@ -68,6 +68,10 @@ func AllShapes(idx int) *schema.File {
 		schema.Field{Name: "r_ap", Num: 23, Kind: "message", Ref: "AP", Label: "repeated"},
 		schema.Field{Name: "r_rec", Num: 24, Kind: "message", Ref: "Rep", Label: "repeated"},
 		schema.Field{Name: "r_str_always", Num: 25, Kind: "string", Label: "repeated", Always: true},
+		schema.Field{Name: "r_u64_always", Num: 26, Kind: "uint64", Label: "repeated", Always: true},
+		schema.Field{Name: "r_enum_always", Num: 27, Kind: "enum", Ref: "E", Label: "repeated", Always: true},
+		schema.Field{Name: "r_bool_always", Num: 28, Kind: "bool", Label: "repeated", Always: true},
+		schema.Field{Name: "r_sf32_always", Num: 29, Kind: "sfixed32", Label: "repeated", Always: true},
 		schema.Field{Name: "last", Num: 63, Kind: "int32"},
 	)
 	// One: a oneof with every kind, a second oneof, regular fields around and between
@@ -83,7 +87,8 @@ func AllShapes(idx int) *schema.File {
 		schema.Field{Name: "c_ap", Num: 33, Kind: "message", Ref: "AP", Oneof: "choice"},
 		schema.Field{Name: "after", Num: 2047, Kind: "int32"},
 		schema.Field{Name: "other_a", Num: 5, Kind: "int32", Oneof: "second"},
-		schema.Field{Name: "other_b", Num: 6, Kind: "string", Oneof: "second"},
+		// (26: between two members of `choice` — the members of the two oneofs interleave by number)
+		schema.Field{Name: "other_b", Num: 26, Kind: "string", Oneof: "second"},
 		// a third oneof: the generator must emit the wrapper types in a fixed order whatever the
 		// number of oneofs (checked by running it several times)
 		schema.Field{Name: "other_c", Num: 7, Kind: "bool", Oneof: "third"},
@@ -141,6 +146,8 @@ func AllShapes(idx int) *schema.File {
 	nestDeep := schema.Message{Name: "Nest_Inner_Deep", Parent: "Nest_Inner", Capture: true, Fields: []schema.Field{
 		{Name: "s", Num: 1, Kind: "string"},
 		{Name: "m", Num: 2, Kind: "map", MapKey: "int32", MapVal: "bytes"},
+		// three levels down, a reference back to the grandparent
+		{Name: "top", Num: 3, Kind: "message", Ref: "Nest"},
 	}}
 	user := schema.Message{Name: "NestUser", Fields: []schema.Field{
 		{Name: "i", Num: 1, Kind: "message", Ref: "Nest_Inner"},
@@ -162,6 +169,15 @@ func AllShapes(idx int) *schema.File {
 		// a second nested message called Inner (Nest has one too) with DIFFERENT message options
 		{Name: "sinner", Num: 8, Kind: "message", Ref: "Shape_Inner"},
 	}}
+	// CapOne: capture_unrecognized_fields together with a oneof, a repeated message, a map and the
+	// highest field number a capturing message may have
+	capOne := schema.Message{Name: "CapOne", Capture: true, Fields: []schema.Field{
+		{Name: "a", Num: 1, Kind: "int32", Oneof: "o"},
+		{Name: "b", Num: 2, Kind: "string", Oneof: "o"},
+		{Name: "ls", Num: 3, Kind: "message", Ref: "Leaf", Label: "repeated"},
+		{Name: "mm", Num: 4, Kind: "map", MapKey: "string", MapVal: "int32"},
+		{Name: "hi", Num: 63, Kind: "int32"},
+	}}
 	ack := schema.Message{Name: "Ack"}
 	envelope := schema.Message{Name: "Envelope", Capture: true}
 	shapeInner := schema.Message{Name: "Shape_Inner", Parent: "Shape", Capture: true, Fields: []schema.Field{
@@ -178,7 +194,7 @@ func AllShapes(idx int) *schema.File {
 		{Name: "kids", Num: 1, Kind: "message", Ref: "Tree", Label: "repeated", Always: true},
 		{Name: "v", Num: 2, Kind: "int32"},
 	}}
-	f.Messages = append(f.Messages, plain, opt, rep, one, cast, wide, nest, nestInner, nestDeep, user, ack, envelope, shape, shapeCircle, shapeInner, tree)
+	f.Messages = append(f.Messages, plain, opt, rep, one, cast, wide, nest, nestInner, nestDeep, user, capOne, ack, envelope, shape, shapeCircle, shapeInner, tree)
 	return f
 }
 
